@@ -34,6 +34,12 @@ class C13(Check):
             "serves a full life (fake world, label StFail in the LTS); one Server value over real loopback sockets "
             "through ListenAndServe and ActivateAndServe across udp / tcp / tcp-tls (all ordered pairs, stale "
             "srv.PacketConn / srv.Listener kept), across failing starts and Shutdown of the unstarted server; "
+            "every way a serve call ends by itself (non-temporary Accept / ReadFrom error, listener / PacketConn "
+            "closed from outside; idle, handlers in flight, after a served request, after temporary errors of both "
+            "flavours, after a client close) followed by Shutdown (waiting, context expiry, after the serve call "
+            "returned, after a refused second start) and a restart, fake world and real sockets; what remains at the "
+            "moment every effective Shutdown call returns and when a life is over (listener / PacketConn / accepted "
+            "connections closed; real sockets probed with SetDeadline); "
             "every boundary-event log is checked by direct oracles and for acceptance "
             "by the LTS inside Coq; 12 Server values over real loopback UDP/TCP sockets, each living twice, with the direct oracles; goroutine "
             "count back at baseline after every scenario. A case is one event log; distinct by hash.")
